@@ -122,6 +122,10 @@ type Chain struct {
 
 var initOnce bool
 
+// Init sets the process-wide SDK configuration (bech32 prefixes, version). It must run before any address is
+// rendered as a string (the SDK caches rendered addresses).
+func Init() { globalInit() }
+
 func globalInit() {
 	if initOnce {
 		return
